@@ -29,9 +29,20 @@ def pairs(ctx):
             # the combinations 'optimisations' like to special-case: opaque solid colour, SrcOver / Src, any alpha
             src = "solid ff%06x" % rng.getrandbits(24)
             opts = "%d %d 1" % (rng.choice([3, 3, 1]), gen.alpha_bits(rng))
-        k = i % 4
+        k = i % 5
         cover = "cliprect %d %d %d %d" % rng.choice([(0, 0, W, H), (-2, -3, W + 4, H + 1), (0, 0, W + 10, H + 10)])
-        if k == 0:
+        if k == 4 and W >= 3 and H >= 3:
+            # the same pair inside a layer narrower than the surface (pushed under a clip rectangle that is popped again,
+            # so the integer fast route is still taken): the routes must also agree when the destination is a layer
+            cx0, cy0 = rng.randrange(0, W - 1), rng.randrange(0, H - 1)
+            cx1, cy1 = rng.randrange(cx0 + 1, W + 1), rng.randrange(cy0 + 1, H + 1)
+            pre = "cliprect %d %d %d %d ; layer %d %d ; popclip" % (cx0, cy0, cx1, cy1, gen.alpha_bits(rng), rng.choice([3, 3, 1, 12]))
+            path = "P 0 5 M %s L %s L %s L %s Z" % (scene.fpt(float(x), float(y)), scene.fpt(float(x + w), float(y)),
+                                                    scene.fpt(float(x + w), float(y + h)), scene.fpt(float(x), float(y + h)))
+            A.append("scene %d %s ; %s ; fillrect %d %d %d %d %s %s ; poplayer" % (len(A), hdr, pre, FB(float(x)), FB(float(y)), FB(float(w)), FB(float(h)), src, opts))
+            B.append("scene %d %s ; %s ; fill %s %s %s ; poplayer" % (len(B), hdr, pre, path, src, opts))
+            kinds.append("fill_rect (integer fast path) vs fill of PathBuilder::rect, drawing into a layer narrower than the surface")
+        elif k == 0 or k == 4:
             path = "P 0 5 M %s L %s L %s L %s Z" % (scene.fpt(float(x), float(y)), scene.fpt(float(x + w), float(y)),
                                                     scene.fpt(float(x + w), float(y + h)), scene.fpt(float(x), float(y + h)))
             A.append("scene %d %s ; fillrect %d %d %d %d %s %s" % (len(A), hdr, FB(float(x)), FB(float(y)), FB(float(w)), FB(float(h)), src, opts))
